@@ -1,1 +1,21 @@
-// in-crate Kani harnesses included into the real crate under cfg(kani) (see MANIFEST.hooks)
+// in-crate Kani harness support for http/ordered_qs.rs (included under cfg(kani)).
+// `OrderedQs::from_vec_unchecked` is #[cfg(test)] only and the only other constructor, `OrderedQs::parse`
+// (serde_urlencoded), costs > 600 s of symbolic execution for a 7-byte query: harnesses build the container with
+// this constructor (same body as from_vec_unchecked: stable sort by name).
+impl OrderedQs {
+    pub(crate) fn kani_from_vec(mut v: Vec<(String, String)>) -> Self {
+        stable_sort_by_first(&mut v);
+        Self { qs: v }
+    }
+
+    /// Precondition: `v` is already sorted by name (the harness passes a literal, visibly sorted list); skips the
+    /// sort, whose symbolic execution over heap Strings is the dominant cost of the window harnesses.
+    pub(crate) fn kani_from_sorted_vec(v: Vec<(String, String)>) -> Self {
+        let mut i = 1;
+        while i < v.len() {
+            assert!(v[i - 1].0 <= v[i].0, "kani_from_sorted_vec: precondition violated");
+            i += 1;
+        }
+        Self { qs: v }
+    }
+}
